@@ -83,6 +83,7 @@ static void t_memchr(BP s, size_t n, size_t present, int c, int mis)
 {
     size_t ext = PL == AFTER ? n : present;
     uint8_t *pi = I[0].put(s, ext, PL, mis), *pr = R[0].put(s, ext, PL, mis);
+    if (want("memchr"))
     {
         setK("memchr", s, ext);
         setN(n);
@@ -94,6 +95,7 @@ static void t_memchr(BP s, size_t n, size_t present, int c, int mis)
             bad("return", "returned %s%+ld, want %s%+ld", ri ? "s" : "NULL", ri ? off(ri, pi) : 0, rr ? "s" : "NULL", rr ? off(rr, pr) : 0);
         note(F_memchr, ri ? 1 : 0);
     }
+    if (want("memrchr"))
     {
         setK("memrchr", s, ext);
         setN(n);
@@ -156,12 +158,17 @@ MC_INIT
     mc::add_check("mem_blocks", [] {
         init_arenas();
         int L = mc::thorough() ? 6 : 5;
-        int i = mc::choose((int)TB.upto[L]);
-        const Str &s = TB.v[i];
-        mc::describe("block %s (%d bytes): memchr/memrchr for every n=0..%d x 12 values of c, memcpy, memmove, both guard placements", hexs(s.b, s.len).c_str(), s.len, s.len);
-        if (s.len >= 2)
+        // a case is a run of 64 consecutive operands (every case starts in a fresh process image, see init_arenas)
+        int NTOT = (int)TB.upto[L], CH = 64;
+        int chunk = mc::choose((NTOT + CH - 1) / CH);
+        int ifirst = chunk * CH, ilast = ifirst + CH <= NTOT ? ifirst + CH - 1 : NTOT - 1;
+        mc::describe("blocks #%d..#%d (%s .. %s): memchr/memrchr for every n=0..len x 12 values of c (+3 huge n when the byte is present), memcpy, memmove, both guard placements", ifirst, ilast, hexs(TB.v[ifirst].b, TB.v[ifirst].len).c_str(), hexs(TB.v[ilast].b, TB.v[ilast].len).c_str());
+        if (ilast >= 6)
             mc::nontrivial();
         uint64_t calls = 0;
+        for (int i = ifirst; i <= ilast; i++)
+        {
+        const Str &s = TB.v[i];
         for (PL = AFTER; PL <= BEFORE; PL++)
         {
             t_copy(false, s.b, s.len, 0, 0);
@@ -179,6 +186,7 @@ MC_INIT
                     t_memchr_huge(s.b, s.len, c, 0);
                     calls += 3;
                 }
+        }
         }
         PL = AFTER;
         mc::more_cases(calls - 1, calls - 1);
@@ -451,6 +459,71 @@ MC_INIT
         }
         PL = AFTER;
         restore_window();
+        unsigned long calls = ncalls - c_before;
+        if (calls)
+            mc::more_cases(calls - 1, calls - 1);
+        flush_notes();
+    });
+
+    // (9) HISTORY: every mem* function called 65600 times in one process, see str_history
+    mc::add_check("mem_history", [] {
+        init_arenas();
+        static const char *FNS[6] = {"memcpy", "memmove", "memset", "memcmp", "memchr", "memrchr"};
+        int c0 = mc::choose(6 * 2);
+        int fi = c0 / 2;
+        PL = c0 % 2;
+        ONLY = FNS[fi];
+        mc::describe("%s called %d times in one process: arguments rotate with period 7; a byte used in one call only comes back 254,255,256,257,510,511,512,65534..65537 calls later; operands %s a guard page",
+                     ONLY, HIST_STEPS, PL == AFTER ? "end at" : "start after");
+        mc::nontrivial();
+        unsigned long c_before = ncalls;
+        for (int k = 0; k < HIST_STEPS && nbad == 0; k++)
+        {
+            HistEv ev = hist_event(k);
+            uint8_t a[48], b[48];
+            size_t n;
+            int c;
+            if (ev.kind == 0)
+            {
+                n = (size_t)(ev.q * 5 + k % 3); // 0..32
+                for (size_t i = 0; i < 40; i++)
+                {
+                    a[i] = (uint8_t)('a' + (i + ev.q) % 7);
+                    b[i] = a[i];
+                }
+                if (n && (k & 1))
+                    b[n - 1] = 'z';
+                c = 'a' + k % 9;
+            }
+            else
+            {
+                uint8_t r = (uint8_t)(0x81 + ev.q);
+                n = 12;
+                for (size_t i = 0; i < 40; i++)
+                    a[i] = b[i] = (uint8_t)('a' + i % 5);
+                a[6] = r;
+                if (ev.kind == 1)
+                {
+                    b[6] = r; // equal blocks
+                    c = r;
+                }
+                else
+                {
+                    b[6] = 'q';
+                    c = 'd';
+                }
+            }
+            switch (fi)
+            {
+            case 0: t_copy(false, a, n, 0, k % 8); break;
+            case 1: t_copy(true, a, n, k % 8, 0); break;
+            case 2: t_set(n, c, k % 8); break;
+            case 3: t_memcmp(a, b, n, n, 0, 0); break;
+            default: t_memchr(a, n, n, c, 0); break;
+            }
+        }
+        ONLY = nullptr;
+        PL = AFTER;
         unsigned long calls = ncalls - c_before;
         if (calls)
             mc::more_cases(calls - 1, calls - 1);
